@@ -1,6 +1,7 @@
 SPECIFICATION Spec
 CONSTANTS
   MaxRunes = 6
+  MaxCalls = 3
   Use = {1, 5}
   BufInit = 10
   UTFMax = 4
